@@ -195,6 +195,20 @@ def attr_name_matches(kind, a, got):
     return g == nm
 
 
+def simple_attr_name(n):
+    """'SELF\\sup.attr' / 'sup.attr' / 'attr' -> 'attr' (lower case)"""
+    return n.lower().split('.')[-1]
+
+
+def unique_rule_forms(ent):
+    """{attribute simple name: set of (labelled?, joint?, written SELF\\sup.attr?)} over the UNIQUE rules of the entity."""
+    out = {}
+    for lab, names in ent.unique:
+        for n in names:
+            out.setdefault(simple_attr_name(n), set()).add((bool(lab), len(names) > 1, '\\' in n))
+    return out
+
+
 def compare(schema, dump, chk=None):
     """-> [(key, what)].  chk (optional) receives coverage: chk.seen(descriptor kind, field) for non-default model values."""
     out = []
@@ -240,6 +254,30 @@ def compare(schema, dump, chk=None):
             out.append(('entity|%s|subtype set differs' % eshape, '%s: want %s, got %s' % (ent.name, sorted(wsub), g.get('subs'))))
         if wsub:
             seen('entity', 'subtypes', min(len(wsub), 3))
+        # ---- UNIQUE: the descriptors of an entity are the attributes it declares or re-declares; such an attribute is unique iff
+        # one of the UNIQUE rules of THIS entity names it (a rule of a subtype over an inherited attribute constrains the
+        # subtype's population only: the supertype's descriptor stays not unique)
+        urf = unique_rule_forms(ent)
+
+        def cmp_unique(where, a, ga, wopt):
+            sn = simple_attr_name(a.name)
+            wu = sn in urf
+            red = bool(getattr(a, 'redeclares', None)) or a.name.lower().startswith('self\\')
+            if red and wu and all(q for _l, _j, q in urf[sn]):
+                # SELF\sup.attr in a rule of the entity that re-declares attr: the group qualifier designates the declaration
+                # in sup (exp2cxx flags nothing and warns "possibly unnecessary qualifiers"); whether the descriptor of the
+                # re-declaration counts as named is not decided by the schema -> either value
+                seen(where, 'unique', 'qualified reference to an attribute the entity re-declares (not judged)')
+                if ga.get('uniq') in ('T', 'F'):
+                    return
+            if (ga.get('uniq') == 'T') != wu or ga.get('uniq') not in ('T', 'F'):
+                out.append(('%s|%s%s|unique flag differs' % (where, 'OPTIONAL, ' if wopt else '', 'named in a UNIQUE rule of its entity' if wu else 'not named in a UNIQUE rule of its entity'),
+                            '%s.%s: want Unique() = %s, got %s' % (ent.name, a.name, wu, ga.get('uniq'))))
+            for lab, joint, _q in sorted(urf.get(sn, [])):
+                seen(where, 'unique', 'labelled' if lab else 'unlabelled', 'joint' if joint else 'single', bool(wopt))
+        own_names = set(simple_attr_name(a.name) for a in ent.attrs + ent.derived + ent.inverse)
+        if any(n not in own_names for n in urf):
+            seen('entity', 'UNIQUE rule over an inherited attribute')
         # ---- explicit + derived attribute descriptors, in order
         want = expected_attr_list(ent)
         got = g.get('attrs', [])
@@ -262,6 +300,7 @@ def compare(schema, dump, chk=None):
                     out.append(('%s|%s|optional flag differs' % (where, 'OPTIONAL' if wopt else 'required'), '%s.%s: want %s, got %s' % (ent.name, a.name, wopt, ga.get('opt'))))
                 if wopt:
                     seen(where, 'optional')
+                cmp_unique(where, a, ga, wopt)
                 # which of the four kinds of attribute the dictionary says this is (explicit / derived / re-declared; inverse
                 # attributes are judged below).  exp2cxx prints the descriptor in a code path chosen by the kind of the
                 # attribute's type, so the key names the clause and the kind of type the attribute is (re-)declared with.
@@ -303,6 +342,9 @@ def compare(schema, dump, chk=None):
                 if lc(x.get('inv_entity')) != i.entity.lower() or lc(x.get('inv_attr')) != i.attr.lower():
                     out.append(('inverse|%s|inverted entity/attribute differs' % ('aggregate' if i.akind else 'single'),
                                 '%s.%s: want %s.%s, got %s.%s' % (ent.name, i.name, i.entity, i.attr, x.get('inv_entity'), x.get('inv_attr'))))
+                if x.get('opt') != 'F':
+                    out.append(('inverse|%s|optional flag differs' % ('aggregate' if i.akind else 'single'), '%s.%s: an INVERSE attribute is never OPTIONAL, got %s' % (ent.name, i.name, x.get('opt'))))
+                cmp_unique('inverse', i, x, False)
                 if x.get('at') != 'inverse':
                     out.append(('inverse|%s|attribute kind differs' % ('aggregate' if i.akind else 'single'), '%s.%s: AttrType %s' % (ent.name, i.name, x.get('at'))))
                 t = M.AGG(i.akind, M.ENT(i.entity), i.lo, i.hi) if i.akind else M.ENT(i.entity)
